@@ -277,9 +277,9 @@ package workceptor
 //@   site call UpdateBasicStatus FORWARD: [C13] requires flag("wrote") ==> rank(arg2) >= rank(lastarg("UpdateBasicStatus", 2)) && rank(lastarg("UpdateBasicStatus", 2)) < 2
 //@   site call UpdateBasicStatus FIRST: [C13] requires !flag("wrote") ==> arg2 == 0 && arg4 == 0
 //@   site call UpdateBasicStatus SIZE: [C13] requires flag("wrote") ==> arg4 == lastcall("stdoutSize", 0)
-//@   loop #2
-//@     invariant PHASE0: [C13] flag("wrote") && lastarg("UpdateBasicStatus", 2) == 0
 //@   loop #1
+//@     invariant PHASE0: [C13] flag("wrote") && lastarg("UpdateBasicStatus", 2) == 0
+//@   loop #2
 //@     invariant PHASE: [C13] flag("wrote") && rank(lastarg("UpdateBasicStatus", 2)) < 2
 
 // a unit found pending after a restart never ran: it is marked failed; finished units are left as they are
@@ -302,3 +302,22 @@ package workceptor
 //@   requires cw != nil
 //@   site call Release VIACANCEL: [C13] requires arg0 == force && (force || lastcall("Cancel", 0) == nil)
 //@   ensures FAILEDCANCEL: [C13] !force && lastcall("Cancel", 0) != nil ==> result == lastcall("Cancel", 0)
+
+// ---- C05: the results stream is exactly the output file from the requested offset, in order, and it ends only
+// ---- when the unit has finished and everything recorded has been sent
+
+//@ spec finished(s int) bool := s == 2 || s == 3 || s == 4
+
+// the reader goroutine of GetResults
+//@ func (*Workceptor).GetResults$2
+//@   tags C05
+//@   site call Seek POSITION: [C05] requires arg1 == filePos && arg2 == 0 && filePos == startPos + ownsentbytes()
+//@   site call Read INTOBUF: [C05] requires arg1 == buf && lastcall("Seek", 0) == filePos && lastcall("Seek", 1) == nil
+//@   site send * CHUNK: [C05] requires ref(value) == ref(buf) && off(value) == off(buf) && len(value) == n && n == lastcall("Read", 0) && n > 0
+//@        && lastarg("Seek", 1) + n == filePos && filePos == startPos + ownsentbytes() + n
+//@   site call Debug ENDONLYWHENCOMPLETE: [C05] requires finished(unitStatus.State) && filePos >= unitStatus.StdoutSize
+//@   site continue #2 ENDSWHENFINISHED: [C05] requires !(err == io.EOF && finished(lastcall("Status", 0).State) && filePos >= lastcall("Status", 0).StdoutSize)
+//@   loop #2
+//@     invariant POS2: [C05] filePos == startPos + ownsentbytes()
+//@   loop #3
+//@     invariant POS3: [C05] filePos == startPos + ownsentbytes()
